@@ -221,7 +221,9 @@ pub fn final_check(s: &In) -> Result<(), Violation> {
             if stops.is_empty() && !s.conn.done() {
                 return Err(viol(s, "in-use-not-refused", "v3".into(), format!("packet #{} reused in-use id {} but the v3 connection was not ended", refused[0].idx, refused[0].id)));
             }
-            if !other_cause && stops.iter().all(|x| !x.starts_with("Stop:Proto")) {
+            // (a routed client has no control service the harness could observe: ClientRouter only offers start())
+            let observable = !(s.cfg.ep.role == Role::Client && s.cfg.ep.router);
+            if observable && !other_cause && stops.iter().all(|x| !x.starts_with("Stop:Proto")) {
                 return Err(viol(s, "in-use-wrong-reason", "v3".into(), format!("packet #{} reused in-use id {}; the connection ended with {stops:?} instead of a protocol violation", refused[0].idx, refused[0].id)));
             }
         }
@@ -259,7 +261,16 @@ pub fn configs(tier: Tier) -> Vec<InCfg> {
         }
         // a duplicate whose payload arrives in pieces: v5 refuses it and carries on, v3 ends the connection
         variants.push((vec![q(1, 1), T::PubSplit { qos: 1, id: 1, len: 6 }, q(1, 2)], if tier == Tier::Quick { 3 } else { 4 }, vec![], vec![GateOutcome::Ok]));
-        for (alphabet, max_len, prologue, outcomes) in variants {
+        // clients: the same histories with the topic router in front of the handler (its own acknowledgement
+        // path in the client dispatchers); the negative-acknowledgement variant and one plain variant
+        let mut variants: Vec<(Vec<T>, u8, Vec<T>, Vec<GateOutcome>, bool)> = variants.into_iter().map(|(a, m, p, o)| (a, m, p, o, false)).collect();
+        if role == Role::Client {
+            let routed: Vec<_> = variants.iter().filter(|x| x.3.len() > 1 || (x.2.is_empty() && x.0.len() == full.len())).cloned().map(|(a, m, p, o, _)| (a, m, p, o, true)).collect();
+            variants.extend(routed);
+        }
+        for (alphabet, max_len, prologue, outcomes, router) in variants {
+            let mut ep = ep.clone();
+            ep.router = router;
             v.push(InCfg {
                 ep: ep.clone(),
                 connect_props: vec![],
@@ -288,7 +299,7 @@ pub fn run(tier: Tier) -> i32 {
         c.known = known.clone();
         ck.explore::<In>("inbound", i, c, &ecfg);
     }
-    ck.rule = "per role: every history of up to 3-5 packets over {PUBLISH q1/q2, SUBSCRIBE, UNSUBSCRIBE, PUBREL} x id in {1,2} (clients: PUBLISH q1/q2 and PUBREL), also after a completed exchange (prologue), with publish-handler and protocol-service completions placed by the explorer at every position (v5 also with handler errors mapped to a negative acknowledgement); reference set model: an id is certainly in use until its handler completed (QoS 2: until PUBREL was sent) and certainly free once its final acknowledgement was seen on the wire; in between no demand. distinct_nontrivial = distinct final observations with >= 2 packets".into();
+    ck.rule = "per role: every history of up to 3-5 packets over {PUBLISH q1/q2, SUBSCRIBE, UNSUBSCRIBE, PUBREL} x id in {1,2} (clients: PUBLISH q1/q2 and PUBREL; with the protocol-service handler and with the topic router), also after a completed exchange (prologue), with publish-handler and protocol-service completions placed by the explorer at every position (v5 also with handler errors mapped to a negative acknowledgement); reference set model: an id is certainly in use until its handler completed (QoS 2: until PUBREL was sent) and certainly free once its final acknowledgement was seen on the wire; in between no demand. distinct_nontrivial = distinct final observations with >= 2 packets".into();
     ck.assumptions = vec!["FIFO task order of ntex-rt; nondeterminism = timing of environment events (DESIGN 2.4)".into()];
     ck.finish()
 }
